@@ -38,13 +38,13 @@ StepLeaf == LET f == Top IN /\ Leaf(f.n[1]) /\ \E o \in Outcomes(f.n, f.c) : Pop
 StepSeq == LET f == Top k == f.n[1] IN
   /\ k \in {"Subexpression", "IndexExpression", "Pipe"}
   /\ CASE f.ph = 0 -> Push([f EXCEPT !.ph = 1], f.n[2], f.c)
-       [] f.ph = 1 -> IF IsErrR THEN Pop(ret) ELSE Push([f EXCEPT !.ph = 2], f.n[3], V)
+       [] f.ph = 1 -> IF IsErrR THEN Pop(Up(ret)) ELSE Push([f EXCEPT !.ph = 2], f.n[3], V)
        [] f.ph = 2 -> Pop(ret)
 
 StepOrAnd == LET f == Top k == f.n[1] IN
   /\ k \in {"OrExpression", "AndExpression"}
   /\ CASE f.ph = 0 -> Push([f EXCEPT !.ph = 1], f.n[2], f.c)
-       [] f.ph = 1 -> IF IsErrR THEN Pop(ret)
+       [] f.ph = 1 -> IF IsErrR THEN Pop(Up(ret))
                       ELSE IF (k = "OrExpression") = IsFalse(V) THEN Push([f EXCEPT !.ph = 2], f.n[3], f.c)
                       ELSE Pop(ret)
        [] f.ph = 2 -> Pop(ret)
@@ -52,13 +52,13 @@ StepOrAnd == LET f == Top k == f.n[1] IN
 StepNot == LET f == Top IN
   /\ f.n[1] = "NotExpression"
   /\ CASE f.ph = 0 -> Push([f EXCEPT !.ph = 1], f.n[2], f.c)
-       [] f.ph = 1 -> IF IsErrR THEN Pop(ret) ELSE Pop(Ok(Bool(IsFalse(V))))
+       [] f.ph = 1 -> IF IsErrR THEN Pop(Up(ret)) ELSE Pop(Ok(Bool(IsFalse(V))))
 
 StepCmp == LET f == Top IN
   /\ f.n[1] = "Comparator"
   /\ CASE f.ph = 0 -> Push([f EXCEPT !.ph = 1], f.n[3], f.c)
-       [] f.ph = 1 -> IF IsErrR THEN Pop(ret) ELSE Push([f EXCEPT !.ph = 2, !.acc = <<V>>], f.n[4], f.c)
-       [] f.ph = 2 -> IF IsErrR THEN Pop(ret) ELSE \E o \in Compare(f.n[2], f.acc[1], V) : Pop(o)
+       [] f.ph = 1 -> IF IsErrR THEN Pop(Up(ret)) ELSE Push([f EXCEPT !.ph = 2, !.acc = <<V>>], f.n[4], f.c)
+       [] f.ph = 2 -> IF IsErrR THEN Pop(Up(ret)) ELSE \E o \in Compare(f.n[2], f.acc[1], V) : Pop(o)
 
 (* children evaluated in order against the same current node: multi-select list / hash, function arguments *)
 KidsOf(n) == CASE n[1] = "MultiSelectList" -> n[2]
@@ -73,7 +73,7 @@ StepEach == LET f == Top k == f.n[1] ks == KidsOf(f.n) IN
      THEN IF k # "FunctionExpression" /\ f.c[1] = "null" THEN Pop(Ok(Null))
           ELSE IF ks = <<>> THEN \E o \in Finish(f.n, <<>>) : Pop(o)
           ELSE Push([f EXCEPT !.ph = 1, !.i = 1], ks[1], f.c)
-     ELSE IF IsErrR THEN Pop(ret)
+     ELSE IF IsErrR THEN Pop(Up(ret))
           ELSE LET acc2 == Append(f.acc, V) IN
                IF f.i < Len(ks) THEN Push([f EXCEPT !.acc = acc2, !.i = f.i + 1], ks[f.i + 1], f.c)
                ELSE \E o \in Finish(f.n, acc2) : Pop(o)
@@ -81,20 +81,20 @@ StepEach == LET f == Top k == f.n[1] ks == KidsOf(f.n) IN
 StepFlatten == LET f == Top IN
   /\ f.n[1] = "Flatten"
   /\ CASE f.ph = 0 -> Push([f EXCEPT !.ph = 1], f.n[2], f.c)
-       [] f.ph = 1 -> IF IsErrR THEN Pop(ret) ELSE Pop(Ok(IF V[1] = "arr" THEN Arr(FlattenOnce(V[2])) ELSE Null))
+       [] f.ph = 1 -> IF IsErrR THEN Pop(Up(ret)) ELSE Pop(Ok(IF V[1] = "arr" THEN Arr(FlattenOnce(V[2])) ELSE Null))
 
 (* list projection and object-value projection: left, then the right-hand side once per element *)
 StepProj == LET f == Top k == f.n[1] IN
   /\ k \in {"Projection", "ValueProjection"}
   /\ CASE f.ph = 0 -> Push([f EXCEPT !.ph = 1], f.n[2], f.c)
        [] f.ph = 1 ->
-            IF IsErrR THEN Pop(ret)
+            IF IsErrR THEN Pop(Up(ret))
             ELSE IF V[1] # (IF k = "Projection" THEN "arr" ELSE "obj") THEN Pop(Ok(Null))
             ELSE \E xs \in (IF k = "Projection" THEN {V[2]} ELSE {[j \in 1..Len(p) |-> p[j][2]] : p \in Perms(V[2])}) :
                    IF xs = <<>> THEN Pop(Ok(Arr(<<>>)))
                    ELSE Push([f EXCEPT !.ph = 2, !.xs = xs, !.i = 1], f.n[3], xs[1])
        [] f.ph = 2 ->
-            IF IsErrR THEN Pop(ret)
+            IF IsErrR THEN Pop(Up(ret))
             ELSE LET acc2 == IF V[1] = "null" THEN f.acc ELSE Append(f.acc, V) IN
                  IF f.i < Len(f.xs) THEN Push([f EXCEPT !.acc = acc2, !.i = f.i + 1], f.n[3], f.xs[f.i + 1])
                  ELSE Pop(Ok(Arr(acc2)))
@@ -104,17 +104,17 @@ StepFilter == LET f == Top IN
   /\ f.n[1] = "FilterProjection"
   /\ CASE f.ph = 0 -> Push([f EXCEPT !.ph = 1], f.n[2], f.c)
        [] f.ph = 1 ->
-            IF IsErrR THEN Pop(ret)
+            IF IsErrR THEN Pop(Up(ret))
             ELSE IF V[1] # "arr" THEN Pop(Ok(Null))
             ELSE IF V[2] = <<>> THEN Pop(Ok(Arr(<<>>)))
             ELSE Push([f EXCEPT !.ph = 2, !.xs = V[2], !.i = 1], f.n[4], V[2][1])
        [] f.ph = 2 ->
-            IF IsErrR THEN Pop(ret)
+            IF IsErrR THEN Pop(Up(ret))
             ELSE IF ~IsFalse(V) THEN Push([f EXCEPT !.ph = 3], f.n[3], f.xs[f.i])
             ELSE IF f.i < Len(f.xs) THEN Push([f EXCEPT !.i = f.i + 1], f.n[4], f.xs[f.i + 1])
             ELSE Pop(Ok(Arr(f.acc)))
        [] f.ph = 3 ->
-            IF IsErrR THEN Pop(ret)
+            IF IsErrR THEN Pop(Up(ret))
             ELSE LET acc2 == IF V[1] = "null" THEN f.acc ELSE Append(f.acc, V) IN
                  IF f.i < Len(f.xs) THEN Push([f EXCEPT !.ph = 2, !.acc = acc2, !.i = f.i + 1], f.n[4], f.xs[f.i + 1])
                  ELSE Pop(Ok(Arr(acc2)))
